@@ -587,3 +587,42 @@ def _opt_copied(m, st, callee, args, t):
 @model("core::iter::traits::iterator::Iterator::skip")
 def _skip(m, st, callee, args, t):
     return Opq("skip", (args[0], args[1]))
+
+
+@model("core::iter::traits::collect::IntoIterator::into_iter")
+def _into_iter_generic(m, st, callee, args, t):
+    # `I: IntoIterator` instantiated with an iterator: identity (std: impl<I: Iterator> IntoIterator for I)
+    v = args[0]
+    if isinstance(v, Opq) and v.kind in ("chars", "enumerate", "skip", "char_indices"):
+        return v
+    return None
+
+
+@model("core::iter::traits::iterator::Iterator::next")
+def _next_generic(m, st, callee, args, t):
+    it = deref(m, st, args[0])
+    if isinstance(it, Opq) and it.kind == "chars":
+        return m.world.chars_next(m, st, args[0])
+    if isinstance(it, Opq) and it.kind == "enumerate":
+        return m.world.enumerate_next(m, st, args[0])
+    return None
+
+
+@model("core::cmp::PartialEq::ne")
+def _default_ne(m, st, callee, args, t):
+    """The provided method `ne` = !eq, dispatched to the type's own eq."""
+    a = deref(m, st, args[0])
+    b = deref(m, st, args[1])
+    if isinstance(a, Sym) and not isinstance(a.name, str) and a.ty in m.prog.adts:
+        a = m.concretize(st, a)
+    if isinstance(b, Sym) and b.ty in m.prog.adts:
+        b = m.concretize(st, b)
+    if _scalar(a) and _scalar(b):
+        return boolean(compare(st, "Ne", a, b, m.world))
+    st_ty = callee.get("self_ty") or (callee["args"][0] if callee.get("args") else None)
+    body = _find_cmp_impl(m, "core::cmp::PartialEq", st_ty, callee["args"][1] if len(callee.get("args", [])) > 1 else st_ty, "eq") if st_ty else None
+    if body is not None:
+        return (INLINE, body, [args[0], args[1]], lambda mm, ss, v: boolean(not mm.truth(ss, v)))
+    if isinstance(a, Str) and isinstance(b, Str):
+        return boolean(not m.world.str_eq(st, a, b))
+    return None
